@@ -111,6 +111,19 @@ let cv_case (f : string array) : string =
            (Z.to_string (List.fold_left (fun a n -> Z.max a (z_of_n n)) Z.zero o.Model.o_allocs))
        else "")
 
+(* ra <u|t> <stream> <action> *)
+let ra_case (f : string array) : string =
+  let cfg = if Array.exists (fun x -> x = "cfg=a") f then Model.asfound else Model.fixed in
+  let st = { Model.sbytes = unhex f.(2); Model.seof = true } in
+  let a = f.(3) in
+  let act =
+    if a = "all" then Model.RlReadAll
+    else if String.length a > 4 && String.sub a 0 4 = "part" then Model.RlReadPart (n_of_string (String.sub a 4 (String.length a - 4)))
+    else Model.RlGoesAway in
+  let (a1, a2) = Model.ahead_two cfg act st in
+  let fmt l = if l = [] then "-" else String.concat "," (List.map hex l) in
+  Printf.sprintf "a1=%s a2=%s" (fmt a1) (fmt a2)
+
 let verdict (v : Model.verdict) : string =
   match v with
   | Model.VOk -> "OK"
@@ -168,6 +181,7 @@ let () =
             match f.(0) with
             | "rp" -> rp_case f
             | "cv" | "pl" -> cv_case f
+            | "ra" -> ra_case f
             | "mqx" -> Explore.mqx_case f
             | "tpx" -> Explore.tpx_case f
             | "tp" -> Explore.tpx_case [| "tpx"; (if Array.exists (fun x -> x = "cfg=a") f then "a" else "f"); f.(1) |]
